@@ -13,6 +13,8 @@ CONSTANTS
   MaxDir = 2
   MaxBlank = 1
   MaxEntries = 4
+  MinRR = 0
+  FirstRR <- NoFirst
   Opt <- I_Opt
 INVARIANTS PTypeOK C20_Denotes C20_LayoutIndependent
 CHECK_DEADLOCK FALSE
